@@ -233,4 +233,23 @@ theorem taint_sound_aux (s : Bytes) (t : Tree) (eT : Expr TV) (h : compile arith
   rw [g.ev bT, g'.ev b]
   exact sound_tree L hb t
 
+/-- The tainted arithmetic and `arith L` accept exactly the same formula texts. -/
+theorem compile_ok_iff (s : Bytes) :
+    (∃ t eT, compile arithT s = .ok (t, eT)) ↔ (∃ t e, compile (arith L) s = .ok (t, e)) := by
+  constructor
+  · rintro ⟨t, eT, h⟩
+    obtain ⟨htok, g⟩ := compileF_post arithT _ s t eT h
+    obtain ⟨e, he⟩ := compileF_complete (arith L) (s.length + 1) s t (Nat.lt_succ_self _) htok g.wp g.deep
+      (lits_transfer L t g.lits)
+    exact ⟨t, e, he⟩
+  · rintro ⟨t, e, h⟩
+    obtain ⟨htok, g⟩ := compileF_post (arith L) _ s t e h
+    have hl : Lits arithT t := by
+      have e' : (fun v => (classify arithT v).isSome) = (fun v => (classify (arith L) v).isSome) :=
+        funext (classify_isSome L)
+      unfold Lits
+      rw [e']; exact g.lits
+    obtain ⟨eT, he⟩ := compileF_complete arithT (s.length + 1) s t (Nat.lt_succ_self _) htok g.wp g.deep hl
+    exact ⟨t, eT, he⟩
+
 end Rare.C19.IEEE
